@@ -825,6 +825,11 @@ def main():
     started = time.time()
     chk.coq_props()
     PHASES.append(('coq_props', round(time.time() - started, 1)))
+    # translator tie: Gen/ReasmSteps.v regenerated from Fragment._reassemble by the run above (fail closed)
+    (tr_ok, tr_err) = chk.translate_ok('reasmsteps')
+    chk.obligation('translator:reasmsteps', tr_ok, tr_err)
+    if not tr_ok:
+        print('# translator target reasmsteps failed closed: %s' % tr_err[:400])
     diffs = {}
     long_run = None
     try:
@@ -863,7 +868,7 @@ def main():
             more = gen_cases(chk)
             chk.tier = chk.args.tier
             evaluate(chk, more, 'search', with_model=False)
-    if not getattr(chk, 'coq_failure', None) is None and not chk.violations and not any(diffs.values()):
+    if (getattr(chk, 'coq_failure', None) is not None or not tr_ok) and not chk.violations and not any(diffs.values()):
         # a proof no longer checks although the model still agrees with the code on the sample: search with the oracle
         chk.tier = 'thorough'
         more = gen_cases(chk)
